@@ -20,6 +20,11 @@ def run(ctx):
     b = ctx.build('c03', core.MODPATH + '/internal/patch', files)
     ch = ctx.child(b, run='TestC03Validator', timeout=1200)
     ctx.absorb(ch, what='TestC03Validator')
+    if ctx.thorough:
+        # second population: race-instrumented bodies have different prologues (racefuncenter calls)
+        br = ctx.build('c03race', core.MODPATH + '/internal/patch', files, race=True)
+        ch = ctx.child(br, run='TestC03Validator', timeout=2400, label='race-population')
+        ctx.absorb(ch, what='TestC03Validator[race-instrumented population]')
     # execution monitor: generated zoo through the public API
     gdir = os.path.join(core.BUILD, 'gen', 'c03', str(ctx.seed))
     ntargets = 48 if not ctx.thorough else 240
